@@ -9,6 +9,20 @@ def repo_commits(prefix):
     return [l.split()[0] for l in out.splitlines() if l.split(" ", 1)[1].startswith(prefix)]
 
 CLAIMS = {
+    "C02": dict(
+        level="exploration",
+        technique="model-based stateful property testing: independent f64 signal-flow evaluator for the whole mixer run alongside a real AudioManager over generated build/drop/pause/volume histories, plus audit of probe sound/effect call logs",
+        text="Generated track trees (depth <= 4), send tracks with route tables, probe sounds and non-commuting probe effects on every node are rendered through the real renderer while histories of adding/removing tracks and sounds, pausing, dropping handles and changing volumes (zero-length to multi-callback tweens) unfold; every output frame is compared with a reference evaluation of the documented signal flow (1e-5, exact zero where nothing is routed), and every probe's call log is audited for 'each frame exactly once, in order, slices <= internal buffer, dt = 1/rate'. Search with shrinking.",
+        note="Summation order is not modelled (tolerance 1e-5); pause/resume are instantaneous here (timed track fades: C12); tween laws themselves: C06.",
+        design="5/C02",
+    ),
+    "C11": dict(
+        level="exploration",
+        technique="metamorphic property-based testing: the same generated scene rendered from fresh managers under two (internal buffer size, callback partition) configurations and compared frame by frame",
+        text="Scenes with fixed parameters (static sounds at any rate/loop/pan/reverse/sample rate, track trees, sends, optional spatial tracks, all eight built-in effects incl. nested delay feedback) are rendered twice with independent buffer sizes 1..4096 and callback partitions (one-frame callbacks, non-multiples, buffers larger than the render); outputs must be bit-identical for scenes without recursive effects and spatial tracks, within 1e-6 with recursive effects (1e-5 with spatial tracks). Search with shrinking.",
+        note="Both renders come from the implementation itself (a metamorphic relation, no reference model). Spatial tracks get a tolerance because their per-frame listener interpolation is not bit-stable by 1-2 ulp; that is stated in the evidence.",
+        design="5/C11",
+    ),
     "C03": dict(
         level="exploration",
         technique="model-based stateful property testing: reference life-cycle state machine (from the handle documentation) run alongside static and streaming Box<dyn Sound> over generated command histories; bounded-exhaustive enumeration of all short command sequences",
